@@ -319,6 +319,7 @@ def specific(ctx, rep):
         programs += n
         disagreements += d
     id_packing(prog, rep)
+    int_string_buffer(prog, rep)
     rep.programs = programs
     rep.disagreements_checked = disagreements
     rep.floor("R1-decode-layout", programs, 379, "codecs (messages + snapshot objects) of the four descriptions")
@@ -1448,3 +1449,17 @@ def id_packing(prog, rep):
                     if not (1 <= m["id"] < (1 << 30)):
                         bad.append("%s %s id %s" % (spec_name, "_".join(m["name"]), m["id"]))
     rep.ob(rule, "described ids in range", not bad, "%d described ordinal message ids are in [1, 2^30)" % cnt if not bad else "; ".join(bad))
+
+
+def int_string_buffer(prog, rep):
+    """R5: int32_string members are re-encoded through string_from_int: its fixed buffer holds the longest decimal i32
+    ("-2147483648", 11 bytes), so encoding what was decoded cannot fail"""
+    import re
+    rule = "R5-int-string-buffer"
+    b = prog.one(GC + "msg::string_from_int")
+    m = re.search(r"ArrayVec<\[u8; (\d+)\]>", b.raw.get("sig") or "")
+    cap = int(m.group(1)) if m else None
+    need = len(str(-2 ** 31))
+    rep.ob(rule, "capacity", cap is not None and cap >= need,
+           "string_from_int returns ArrayVec<[u8; %s]>, the longest i32 needs %d bytes" % (cap, need) if cap is not None and cap >= need else
+           "string_from_int's buffer has %s bytes but \"%d\" needs %d: re-encoding a decoded value panics" % (cap, -2 ** 31, need), b.loc())
